@@ -44,3 +44,9 @@ def fill(check, na):
           "audio/video and fault modes; all arrival permutations of 5-6 packets with <= 1 duplicate at capacity 4 are enumerated.",
           "Lateness is measured against the highest sequence number seen; ring contents are read from the private _packets attribute for the PLI/occupancy clauses.",
           "DESIGN.md 3/C10")
+    check("C12", "reference-model monitor: the real RtpRouter is compared after every operation with a small executable router written from the statement, plus a tombstone check (nothing unregistered is ever returned)",
+          "Held on the histories generated: every route_rtp / route_rtcp return value of every history equals the reference "
+          "router's. Random histories of 20-200 operations over overlapping SSRC / payload-type sets; all histories up to length "
+          "4 (quick) / 5 (thorough) over a 21-symbol alphabet on 2 receivers x 2 payload types x 2 SSRCs are enumerated.",
+          "Receivers/senders are opaque stubs; SDES only gets the tombstone clause; truncated REMB FCIs belong to C05.",
+          "DESIGN.md 3/C12")
